@@ -1,0 +1,6 @@
+//go:build !verif
+// +build !verif
+
+package contextscope
+
+func verifPoint(site string) {}
